@@ -34,6 +34,9 @@ impl Mk for VarElem {
 	}
 }
 
+/// Wire protocol version used for segments (3 = current p2p version: commit-only inputs, variable kernels).
+pub const WIRE: ProtocolVersion = ProtocolVersion(3);
+
 /// A segment as plain data (the wire layout of Segment<T>), so that single elements can be corrupted.
 #[derive(Clone)]
 pub struct PlainSeg<T> {
@@ -47,7 +50,7 @@ pub struct PlainSeg<T> {
 }
 
 pub fn proof_hashes<W: Writeable>(proof: &W) -> Vec<Hash> {
-	let b = ser::ser_vec(proof, ProtocolVersion(1)).expect("ser proof");
+	let b = ser::ser_vec(proof, WIRE).expect("ser proof");
 	let n = u64::from_be_bytes(b[0..8].try_into().unwrap()) as usize;
 	(0..n)
 		.map(|i| Hash::from_vec(&b[8 + 32 * i..8 + 32 * (i + 1)]))
@@ -82,7 +85,7 @@ impl<T: Clone + Writeable + Readable> PlainSeg<T> {
 			b.extend_from_slice(&(p + 1).to_be_bytes());
 		}
 		for d in &self.leaf_data {
-			b.extend_from_slice(&ser::ser_vec(d, ProtocolVersion(1)).expect("ser leaf"));
+			b.extend_from_slice(&ser::ser_vec(d, WIRE).expect("ser leaf"));
 		}
 		b.extend_from_slice(&(self.proof.len() as u64).to_be_bytes());
 		for h in &self.proof {
@@ -90,10 +93,30 @@ impl<T: Clone + Writeable + Readable> PlainSeg<T> {
 		}
 		b
 	}
+	/// Without the wire format of the leaves (BitmapChunk is not Readable; it travels as BitmapSegment).
+	pub fn to_segment_direct(&self) -> Result<Segment<T>, ser::Error> {
+		let mut pb = (self.proof.len() as u64).to_be_bytes().to_vec();
+		for h in &self.proof {
+			pb.extend_from_slice(h.as_bytes());
+		}
+		let proof = ser::deserialize(&mut &pb[..], WIRE, DeserializationMode::default())?;
+		let me = self.clone();
+		std::panic::catch_unwind(std::panic::AssertUnwindSafe(move || {
+			Segment::from_parts(
+				SegmentIdentifier { height: me.h, idx: me.idx },
+				me.hash_pos,
+				me.hashes,
+				me.leaf_pos,
+				me.leaf_data,
+				proof,
+			)
+		}))
+		.map_err(|_| ser::Error::SortError)
+	}
 	/// Through the wire format, as a peer's segment arrives.
 	pub fn to_segment(&self) -> Result<Segment<T>, ser::Error> {
 		let b = self.bytes();
-		ser::deserialize(&mut &b[..], ProtocolVersion(1), DeserializationMode::default())
+		ser::deserialize(&mut &b[..], WIRE, DeserializationMode::default())
 	}
 }
 
